@@ -33,7 +33,43 @@ type CallEnv struct {
 	FaultErr       error // the error injected by Fault == "err"
 	StatesMade     int   // number of state objects generated during this call
 	Mon            *StateMonitor
+	Call           int               // index of the current call of a history (set by the driver)
+	Events         []Event           // start / end of bodies, in real order
+	SeenStates     map[string]*GState // graph path -> state object last seen by a callback of that graph
+	SeenSeq        map[string]int     // graph path -> logical time of that observation
+	seenSeq        int
 	Hook           func(ctx context.Context, n *NodeSpec, tag string, in string) // optional extra instrumentation
+}
+
+// Event is the start or the end of one body execution.
+type Event struct {
+	Call    int    `json:"call"`
+	Node    string `json:"node"`
+	Phase   string `json:"phase"` // start | end | abort (asked for interrupt-and-rerun)
+	In      string `json:"in,omitempty"`
+	Out     string `json:"out,omitempty"`
+	Aborted bool   `json:"aborted,omitempty"`
+}
+
+func (e *CallEnv) event(ev Event) {
+	e.mu.Lock()
+	ev.Call = e.Call
+	e.Events = append(e.Events, ev)
+	e.mu.Unlock()
+}
+
+// SetCall sets the call index for subsequent events.
+func (e *CallEnv) SetCall(i int) {
+	e.mu.Lock()
+	e.Call = i
+	e.mu.Unlock()
+}
+
+// EventsCopy returns a copy of the event list.
+func (e *CallEnv) EventsCopy() []Event {
+	e.mu.Lock()
+	defer e.mu.Unlock()
+	return append([]Event(nil), e.Events...)
 }
 
 // ErrRunaway is returned by a body that was started implausibly often.
@@ -67,7 +103,21 @@ func (e *CallEnv) record(tag, in string) int {
 	defer e.mu.Unlock()
 	e.Log = append(e.Log, Exec{Node: tag, In: in})
 	e.Attempts[tag]++
+	e.Events = append(e.Events, Event{Call: e.Call, Node: tag, Phase: "start", In: in})
 	return e.Attempts[tag]
+}
+
+// unrecord removes the log entry of an aborted attempt (a node that asked for interrupt-and-rerun).
+func (e *CallEnv) unrecord(tag, in string) {
+	e.mu.Lock()
+	defer e.mu.Unlock()
+	for i := len(e.Log) - 1; i >= 0; i-- {
+		if e.Log[i].Node == tag && e.Log[i].In == in {
+			e.Log = append(e.Log[:i], e.Log[i+1:]...)
+			break
+		}
+	}
+	e.Events = append(e.Events, Event{Call: e.Call, Node: tag, Phase: "abort", In: in})
 }
 
 // ---- the body shared by all paradigms -----------------------------------------
@@ -101,6 +151,10 @@ func body(ctx context.Context, n *NodeSpec, tag string, in string) (string, erro
 	if n.Gate && env.Ctl != nil {
 		env.Ctl.Wait(tag)
 	}
+	if n.Rerun > 0 && attempt <= n.Rerun {
+		env.unrecord(tag, in)
+		return "", compose.InterruptAndRerun
+	}
 	if n.PS {
 		if err := compose.ProcessState[*GState](ctx, func(ctx context.Context, st *GState) error {
 			critical(ctx, st, "ps:"+tag)
@@ -115,10 +169,9 @@ func body(ctx context.Context, n *NodeSpec, tag string, in string) (string, erro
 	case "panic":
 		panic("injected panic in " + tag)
 	}
-	if n.Rerun > 0 && attempt <= n.Rerun {
-		return "", compose.InterruptAndRerun
-	}
-	return F(tag, n.Digest, in), nil
+	out := F(tag, n.Digest, in)
+	env.event(Event{Node: tag, Phase: "end", In: in, Out: out})
+	return out, nil
 }
 
 // Chunk splits s into k pieces (some possibly empty), deterministically.
@@ -953,4 +1006,112 @@ func ChunkInput(in any, k int) []any {
 		return out
 	}
 	return []any{in}
+}
+
+// ByteStore is a CheckPointStore that keeps only bytes: it copies on Set and on Get, so nothing
+// but serialised data survives between calls.  It counts calls per history call index.
+type ByteStore struct {
+	mu   sync.Mutex
+	data map[string][]byte
+	Sets []StoreOp
+	Gets []StoreOp
+	Call *int // points at the driver's current call index (may be nil)
+}
+
+// StoreOp is one store access.
+type StoreOp struct {
+	Call int
+	ID   string
+	Len  int
+}
+
+// NewByteStore creates an empty store.
+func NewByteStore() *ByteStore { return &ByteStore{data: map[string][]byte{}} }
+
+func (b *ByteStore) call() int {
+	if b.Call != nil {
+		return *b.Call
+	}
+	return 0
+}
+
+// Get implements compose.CheckPointStore.
+func (b *ByteStore) Get(ctx context.Context, id string) ([]byte, bool, error) {
+	b.mu.Lock()
+	defer b.mu.Unlock()
+	d, ok := b.data[id]
+	b.Gets = append(b.Gets, StoreOp{Call: b.call(), ID: id, Len: len(d)})
+	if !ok {
+		return nil, false, nil
+	}
+	return append([]byte(nil), d...), true, nil
+}
+
+// Set implements compose.CheckPointStore.
+func (b *ByteStore) Set(ctx context.Context, id string, data []byte) error {
+	b.mu.Lock()
+	defer b.mu.Unlock()
+	b.data[id] = append([]byte(nil), data...)
+	b.Sets = append(b.Sets, StoreOp{Call: b.call(), ID: id, Len: len(data)})
+	return nil
+}
+
+// SetsInCall counts Set operations made during the given call.
+func (b *ByteStore) SetsInCall(call int) int {
+	b.mu.Lock()
+	defer b.mu.Unlock()
+	c := 0
+	for _, s := range b.Sets {
+		if s.Call == call {
+			c++
+		}
+	}
+	return c
+}
+
+// OwnedStates resolves, for every graph that declares state, the state object most recently
+// seen by any callback running under it (callbacks of nested graphs without own state use the
+// state of the nearest stateful ancestor).
+func (e *CallEnv) OwnedStates(sp *Spec) map[string]*GState {
+	e.mu.Lock()
+	defer e.mu.Unlock()
+	best := map[string]int{}
+	out := map[string]*GState{}
+	for gp, st := range e.SeenStates {
+		parts := []string{}
+		if gp != "" {
+			parts = strings.Split(strings.TrimSuffix(gp, "/"), "/")
+		}
+		// nearest stateful ancestor (or self)
+		owner := ""
+		found := false
+		for k := len(parts); k >= 0; k-- {
+			cur := sp
+			ok := true
+			for _, p := range parts[:k] {
+				n := cur.Node(p)
+				if n == nil || n.Sub == nil {
+					ok = false
+					break
+				}
+				cur = n.Sub
+			}
+			if ok && cur.State {
+				owner = strings.Join(parts[:k], "/")
+				if k > 0 {
+					owner += "/"
+				}
+				found = true
+				break
+			}
+		}
+		if !found {
+			continue
+		}
+		if e.SeenSeq[gp] > best[owner] {
+			best[owner] = e.SeenSeq[gp]
+			out[owner] = st
+		}
+	}
+	return out
 }
